@@ -216,6 +216,33 @@ func runGrown[T signal.SignalTypes](c *Case) (res kit.Result) {
 				res.Failf("%s: parent changed to len %d cap %d", what, b.Len(), b.Cap())
 				return
 			}
+			// the window is a parent in its own right: slicing it (its capacity, like the grown
+			// buffer's, need not be a whole number of frames) leaves its header as it is, and the
+			// nested window has exactly the capacity of the same window cut from the grown buffer
+			for _, s2 := range []int{0, 1, want.Capacity} {
+				if s2 > want.Capacity || (s2 == 1 && s+e > 7) { // the middle probe only for the first few windows
+					continue
+				}
+				var nested *signal.Buffer[T]
+				if p, v := kit.Try(func() { nested = child.Slice(s2, want.Capacity) }); p {
+					res.Failf("%s, then Slice(%d,%d) on the window: panic: %v", what, s2, want.Capacity, v)
+					return
+				}
+				if h := kit.HdrOf(child); h != want {
+					res.Failf("%s: the window's header changed to %+v when it was sliced (was %+v)", what, h, want)
+					return
+				}
+				if m := kit.RawMismatch(child, want); m != "" {
+					res.Failf("%s: after the window was sliced: %s", what, m)
+					return
+				}
+				direct := b.Slice(s+s2, s+want.Capacity)
+				if hn, hd := kit.HdrOf(nested), kit.HdrOf(direct); hn != hd {
+					res.Failf("%s, then Slice(%d,%d) on the window gives %+v; the same frames cut from the grown buffer directly give %+v", what, s2, want.Capacity, hn, hd)
+					return
+				}
+				res.Class("windowOfAGrownParentSlicedAgain")
+			}
 			// sharing: the child's sample (ch,i) is the parent's position C*(s+i)+ch
 			for k := 0; k < child.Len(); k++ {
 				v := T(100 + (k+s)%27)
